@@ -3,3 +3,4 @@ import TjdLemmas.C14Lemmas
 import TjdLemmas.C07Lemmas
 import TjdLemmas.AutojacLemmas
 import TjdLemmas.MtlLemmas
+import TjdLemmas.C06Lemmas
